@@ -193,6 +193,19 @@ Ltac own_fact H ::=
         | apply router_exec_ops_owner in H | apply cw20_send_owner in H
         | apply router_assert_min_owner in H ].
 
+Lemma cw20_send_from_owner w ta sp ow target n h w' : cw20_send_from w ta sp ow target n h = Ok w' -> w_owner w' = w_owner w.
+Proof. intros H. unfold cw20_send_from in H. cbv beta zeta in H. own_solve. Qed.
+
+Ltac own_fact H ::=
+  first [ apply bank_send_owner in H | apply move_funds_owner in H | apply with_token_owner in H
+        | apply pay_asset_owner in H | apply pair_swap_owner in H | apply pair_withdraw_owner in H
+        | apply pair_provide_owner in H | apply pair_update_decimals_owner in H
+        | apply pair_receive_owner in H | apply fac_create_pair_owner in H
+        | apply fac_add_native_owner in H | apply router_hop_owner in H
+        | apply router_exec_ops_owner in H | apply cw20_send_owner in H
+        | apply cw20_send_from_owner in H
+        | apply router_assert_min_owner in H ].
+
 (* ------------------------------------------------------------------------------------ *)
 (* privileged factory entry points                                                       *)
 (* ------------------------------------------------------------------------------------ *)
